@@ -29,7 +29,8 @@ inline std::set<ProcCtx*>& live_procs() { static std::set<ProcCtx*> *s = new std
 struct ProcCtx {
     // a simulated process lives for one run; objects of the library that outlive it (function-local
     // statics such as the global_control kept by set_global_tbb_concurrency) must not touch a later one
-    ProcCtx() { IgnoreGuard ig; live_procs().insert(this); }
+    ProcCtx() { IgnoreGuard ig; static uint64_t counter = 0; uid = ++counter; live_procs().insert(this); }
+    uint64_t uid = 0;                           // a later process may reuse this object's address: compare uids
     ~ProcCtx() { IgnoreGuard ig; live_procs().erase(this); }
     ProcCtx(const ProcCtx&) = delete;
     ProcCtx& operator=(const ProcCtx&) = delete;
